@@ -28,16 +28,39 @@ Local Ltac shifts :=
   change (2 ^ 32) with 4294967296; change (2 ^ 40) with 1099511627776;
   change (2 ^ 48) with 281474976710656; change (2 ^ 56) with 72057594037927936.
 
+(* x = low byte + 256 * rest, peeled one byte at a time (keeps the proof terms small) *)
+Lemma peel x : x = x mod 256 + 256 * (x / 256).
+Proof. rewrite N.add_comm. apply N.div_mod. discriminate. Qed.
+Lemma shr8 x k : N.shiftr x (k + 8) = N.shiftr x k / 256.
+Proof. rewrite <- N.shiftr_shiftr. rewrite (N.shiftr_div_pow2 _ 8). reflexivity. Qed.
+
 Lemma rd_u32_w x r : x < 4294967296 -> rd_u32 (le32 x ++ r) = Some (x, r).
 Proof.
-  intros H. rewrite le32_bytes. cbn [app rd_u32]. f_equal. f_equal. shifts.
-  Ltac Zify.zify_post_hook ::= Z.div_mod_to_equations. lia.
+  intros H. rewrite le32_bytes. cbn [app rd_u32]. f_equal. f_equal.
+  change 24 with (16 + 8). rewrite shr8. change 16 with (8 + 8). rewrite shr8.
+  replace (N.shiftr x 8) with (x / 256) by (rewrite N.shiftr_div_pow2; reflexivity).
+  set (y1 := x / 256). set (y2 := y1 / 256). set (y3 := y2 / 256).
+  assert (H3 : y3 mod 256 = y3).
+  { apply N.mod_small. unfold y3, y2, y1. rewrite !N.div_div by discriminate.
+    apply N.div_lt_upper_bound; [discriminate|]. exact H. }
+  rewrite H3. unfold y3. rewrite <- (peel y2). unfold y2. rewrite <- (peel y1). unfold y1. rewrite <- (peel x). reflexivity.
 Qed.
 
 Lemma rd_u64_w x r : x < 18446744073709551616 -> rd_u64 (le64 x ++ r) = Some (x, r).
 Proof.
-  intros H. rewrite le64_bytes. cbn [app rd_u64]. f_equal. f_equal. shifts.
-  Ltac Zify.zify_post_hook ::= Z.div_mod_to_equations. lia.
+  intros H. rewrite le64_bytes. cbn [app rd_u64]. f_equal. f_equal.
+  change 56 with (48 + 8). rewrite shr8. change 48 with (40 + 8). rewrite shr8.
+  change 40 with (32 + 8). rewrite shr8. change 32 with (24 + 8). rewrite shr8.
+  change 24 with (16 + 8). rewrite shr8. change 16 with (8 + 8). rewrite shr8.
+  replace (N.shiftr x 8) with (x / 256) by (rewrite N.shiftr_div_pow2; reflexivity).
+  set (y1 := x / 256). set (y2 := y1 / 256). set (y3 := y2 / 256). set (y4 := y3 / 256).
+  set (y5 := y4 / 256). set (y6 := y5 / 256). set (y7 := y6 / 256).
+  assert (H7 : y7 mod 256 = y7).
+  { apply N.mod_small. unfold y7, y6, y5, y4, y3, y2, y1. rewrite !N.div_div by discriminate.
+    apply N.div_lt_upper_bound; [discriminate|]. exact H. }
+  rewrite H7. unfold y7. rewrite <- (peel y6). unfold y6. rewrite <- (peel y5). unfold y5. rewrite <- (peel y4).
+  unfold y4. rewrite <- (peel y3). unfold y3. rewrite <- (peel y2). unfold y2. rewrite <- (peel y1).
+  unfold y1. rewrite <- (peel x). reflexivity.
 Qed.
 
 Lemma rd_u32_wu32 x r : rd_u32 (w_u32 x ++ r) = Some (u32 x, r).
